@@ -245,6 +245,16 @@ Proof.
 Qed.
 Print Assumptions replace_empty_pattern_spec.
 
+(* T4 contains / starts_with / ends_with (core.string calls str::contains / starts_with / ends_with; the model's
+   find_sub / is_prefix / is_suffix are what table 4 of the correspondence compares): exactly substring,
+   prefix and suffix, for all byte strings *)
+Theorem contains_starts_ends_spec : forall s p,
+  (op_contains s p = true <-> exists a b, s = a ++ p ++ b) /\
+  (is_prefix p s = true <-> exists b, s = p ++ b) /\
+  (is_suffix p s = true <-> exists a, s = a ++ p).
+Proof. intros s p. split; [apply contains_iff|]. split; [apply is_prefix_iff | apply is_suffix_iff]. Qed.
+Print Assumptions contains_starts_ends_spec.
+
 (* the overlapping case: the ends must not be located independently *)
 Example trim_overlap : trim_end_matches [97; 97] (trim_start_matches [97; 97] [97; 97; 97]) = [97] /\
   trim_end_matches [97; 97] [97; 97; 97] = [97] /\ trim_start_matches [97; 97] [97; 97; 97] = [97].
